@@ -889,6 +889,158 @@ def op_elements(scn):
     return out
 
 
+
+def obj_digest(c, kind, obj):
+    """observational digest of a loaded object (None / wrong class are reported as such)"""
+    from chipfiring.CFGraph import CFGraph as _G
+    cls = {"graph": _G, "divisor": CFDivisor, "orientation": CFOrientation, "script": CFiringScript}[kind]
+    if obj is None:
+        return "NONE"
+    if not isinstance(obj, cls):
+        return {"wrong_class": type(obj).__name__}
+    if kind == "graph":
+        return {"graph": c.gdigest(obj)}
+    if kind == "divisor":
+        return {"graph": c.gdigest(obj.graph), "div": ddig(c, obj)}
+    if kind == "orientation":
+        d = odigest(c, obj.graph, obj)
+        d.pop("is_full"); d.pop("checked")
+        return {"graph": c.gdigest(obj.graph), "orient": d}
+    sc = obj.script
+    return {"graph": c.gdigest(obj.graph), "script": [sc[nm] for nm in c.names]}
+
+
+def well_formed(kind, obj, res):
+    """a returned object must be of the requested class and internally consistent"""
+    try:
+        if not isinstance(res, type(obj)):
+            return False
+        g2 = res if kind == "graph" else res.graph
+        names2 = sorted(v.name for v in g2.vertices)
+        dd = digest_graph(g2, names2)
+        if "bad_vertices" in dd or sum(dd["val"]) != 2 * dd["total"]:
+            return False
+        if kind == "divisor":
+            return set(res.degrees.keys()) == set(g2.vertices) and res.get_total_degree() == sum(res.degrees.values())
+        if kind == "orientation":
+            res.check_fullness()
+            return all(isinstance(res.in_degree[v], int) for v in g2.vertices)
+        if kind == "script":
+            return all(isinstance(x, int) for x in res.script.values())
+        return True
+    except Timeout:
+        raise
+    except Exception:
+        return False
+
+
+@op("rt")
+def op_rt(scn):
+    import tempfile, random as _r
+    from chipfiring.CFDataProcessor import CFDataProcessor
+    c = Ctx(scn)
+    kind = scn["kind"]
+    ok, G = call(c.graph, scn)
+    if not ok:
+        return "ERR"
+    if kind == "graph":
+        obj = G
+    elif kind == "divisor":
+        obj = c.divisor(G, scn["deg"])
+        if scn.get("via_apply"):
+            # the same divisor, but produced by CFLaplacian.apply with the zero script
+            obj = CFLaplacian(G).apply(obj, CFiringScript(G))
+    elif kind == "orientation":
+        ok, obj = call(CFOrientation, G, [(c.name(a), c.name(b)) for a, b in scn.get("orient", [])])
+        if not ok:
+            return "ERR"
+    else:
+        ok, obj = call(CFiringScript, G, {c.name(i): k for i, k in scn.get("script", [])})
+        if not ok:
+            return "ERR"
+    tname = {"graph": "graph", "divisor": "divisor", "orientation": "orientation", "script": "firingscript"}[kind]
+    proc = CFDataProcessor()
+    out = {}
+    ok, back = call(lambda: type(obj).from_dict(json.loads(json.dumps(obj.to_dict()))))
+    out["dict"] = obj_digest(c, kind, back) if ok else "ERR"
+    rng = _r.Random(scn.get("fseed", 0))
+    raised = prefix_not_none = malformed = tried = 0
+    with tempfile.TemporaryDirectory() as td:
+        for fmt in ("json", "txt"):
+            if fmt == "txt" and not scn.get("txt", True):
+                continue
+            path = os.path.join(td, "obj." + fmt)
+            writer = proc.to_json if fmt == "json" else proc.to_txt
+            reader = proc.read_json if fmt == "json" else proc.read_txt
+            ok, _ = call(writer, obj, path)
+            ok2, back = call(reader, path, tname if rng.random() < 0.8 else tname.upper())
+            out[fmt] = obj_digest(c, kind, back) if (ok and ok2) else "ERR"
+            data = open(path, "rb").read() if os.path.exists(path) else b""
+            # fault enumeration: byte-prefix truncations and single-byte corruptions
+            full = scn.get("faults") == "all"
+            cuts = list(range(len(data))) if full or len(data) <= 80 else sorted(set(
+                [int(i * len(data) / 64) for i in range(64)] + list(range(max(0, len(data) - 16), len(data)))))
+            dpath = os.path.join(td, "damaged." + fmt)
+            for cut in cuts:
+                with open(dpath, "wb") as f:
+                    f.write(data[:cut])
+                tried += 1
+                ok3, res = call(reader, dpath, tname)
+                if not ok3:
+                    raised += 1
+                elif fmt == "json" and res is not None:
+                    prefix_not_none += 1
+                elif res is not None and not well_formed(kind, obj, res):
+                    malformed += 1
+            positions = list(range(len(data))) if full else [rng.randrange(len(data)) for _ in range(48)] if data else []
+            for pos in positions:
+                for val in ((0, 255, ord("}")) if full else (rng.choice([0, 255, ord("}"), ord(","), ord(":"), ord("9"), ord("\n"), ord(" "), ord("-")]),)):
+                    dmg = bytearray(data)
+                    dmg[pos] = val
+                    with open(dpath, "wb") as f:
+                        f.write(bytes(dmg))
+                    tried += 1
+                    ok3, res = call(reader, dpath, tname)
+                    if not ok3:
+                        raised += 1
+                    elif res is not None and not well_formed(kind, obj, res):
+                        malformed += 1
+        ok4, res = call(proc.read_json, os.path.join(td, "does-not-exist.json"), tname)
+        ok5, res2 = call(proc.read_txt, os.path.join(td, "does-not-exist.txt"), tname)
+        out["missing"] = "NONE" if (ok4 and ok5 and res is None and res2 is None) else "RAISED-OR-OBJECT"
+    out["faults"] = {"raised": raised, "json_prefix_not_none": prefix_not_none, "malformed": malformed}
+    out["_tried"] = tried
+    return out
+
+
+
+@op("bounds")
+def op_bounds(scn):
+    from chipfiring import CFCombinatorics as CC
+    c = Ctx(scn)
+    ok, G = call(c.graph, scn)
+    if not ok:
+        return "ERR"
+    out = {}
+    ok, a = call(CC.independence_number, G)
+    out["independence_number"] = a if ok else "ERR"
+    ok, b = call(CC.gonality_theoretical_bounds, G)
+    for k in ("trivial_upper_bound", "independence_upper_bound", "minimum_degree_bound", "bramble_order_bound", "lower_bound", "upper_bound"):
+        out[k] = (b.get(k, "<absent>") if ok and isinstance(b, dict) else "ERR")
+    out["graph"] = c.gdigest(G)
+    return out
+
+
+@op("closed")
+def op_closed(scn):
+    from chipfiring import CFCombinatorics as CC, CFPlatonicSolids as PS
+    f = {"complete_graph_gonality": PS.complete_graph_gonality,
+         "complete_multipartite_gonality": CC.complete_multipartite_gonality,
+         "parking_function_count": CC.parking_function_count}[scn["name"]]
+    ok, v = call(f, scn["arg"])
+    return {"value": v if ok else "ERR"}
+
+
 # ----------------------------------------------------------------------------- main loop
 
 def _jsondefault(o):
